@@ -842,7 +842,7 @@ func split(value, sep any) (any, error) {
 		}
 	}
 
-	if len(s) == 0 {
+	if len(s) == 0 && len(p) == 0 {
 		return []any{}, nil
 	}
 
@@ -930,7 +930,7 @@ func splitCount(value, sep, count any) (any, error) {
 		return []any{s}, nil
 	}
 
-	if len(s) == 0 {
+	if len(s) == 0 && len(p) == 0 {
 		return []any{}, nil
 	}
 
